@@ -704,8 +704,14 @@ func wrapDisabled(d, exp Exp, lookup *TypeLookup) (Exp, error) {
 	case *SplitExp:
 		switch v := d.Value.(type) {
 		case *RefExp:
+			var disabled Exp = v
+			if _, ok := v.Forks[d.Call]; !ok {
+				// The reference is to the whole collection the call is
+				// mapped over; each fork is disabled by its own element.
+				disabled = d
+			}
 			exp = &DisabledExp{
-				Disabled: v,
+				Disabled: disabled,
 				Value:    exp,
 			}
 		case *ArrayExp:
